@@ -1,4 +1,5 @@
 import ShroudVerif.Lemmas.Lines
+import ShroudVerif.Gen.LineCfg
 /-!
 # C13  Line wrapping never alters code and respects the line limit
 
@@ -248,6 +249,37 @@ theorem wl_empty_body_ok :
     subline 72 "    ".toList "&".toList 0 "+".toList = .ok ⟨["    ".toList], 1⟩ ∧
     subline 72 "    ".toList "&".toList 1 "-".toList = .ok ⟨[[]], 0⟩ := by
   decide
+
+/-! ### the 132-column consequence for Fortran -/
+
+/-- With continuation marker `cont`, every written physical line is at most
+    `linelen + cont.length` columns long, unless it carries at most one part
+    (no break point could help). -/
+theorem rendered_line_limit (c : Cfg) (cont line : List Char) :
+    ∃ gs : List Grp, gs.length = (render cont (wcBodies c line)).length ∧
+      ∀ (j : Nat) (h1 : j < (render cont (wcBodies c line)).length) (h2 : j < gs.length),
+        ((render cont (wcBodies c line))[j]).length ≤ c.linelen + cont.length ∨ (gs[j]).saved.length ≤ 1 := by
+  obtain ⟨gs, hlen, hgs⟩ := wc_length c line
+  have hr := render_markers cont (wcBodies c line)
+  refine ⟨gs, by rw [hlen, hr.1], ?_⟩
+  intro j h1 h2
+  have hj : j < (wcBodies c line).length := by rw [← hr.1]; exact h1
+  rcases hgs j hj h2 with h | h
+  · left
+    rw [hr.2 j h1 hj]
+    split
+    · simp only [List.length_append]; omega
+    · omega
+  · right; exact h
+
+/-- **table theorem** (regenerated from the working tree): the C, Python and Lua
+    emitters take their line length from `C_line_length` and use no continuation
+    marker; the Fortran emitter takes `F_line_length` and the marker `" &"`; and
+    the default `F_line_length` plus the marker stays within Fortran's 132 columns. -/
+theorem emitter_line_config :
+    Shroud.Gen.LineCfg.emitterLineCfg = [(0, 0, []), (1, 1, [32, 38]), (2, 0, []), (3, 0, [])] ∧
+    Shroud.Gen.LineCfg.lineLengthDefaults.2 + 2 ≤ 132 := by decide +kernel
+
 
 /-! ### non-vacuity -/
 
